@@ -1,6 +1,6 @@
 (** C10 obligation: a repeated-element wrapper converts exactly as the element it wraps (its own required flag plays no role) *)
-From OfxV Require Import Base.Prelude Base.Digits Gen.ScalarsGen Model.PyDecimal Model.Scalars Model.ScalarsLex Proofs.ScalarsText Proofs.PyDecimalProofs Proofs.ScalarsProofs Proofs.ScalarsLexProofs.
+From OfxV Require Import Base.Prelude Base.Digits Gen.ScalarsGen Model.PyDecimal Model.Scalars Model.ScalarsLex Proofs.ScalarsText Proofs.PyDecimalProofs Proofs.ScalarsProofs Proofs.ScalarsLexProofs Proofs.ScalarsThms.
 Local Open Scope N_scope.
 Theorem ListElement_delegates : forall c r v, convert (ListElem c r) v = convert c v /\ unconvert (ListElem c r) v = unconvert c v.
-Proof. intros. split; reflexivity. Qed.
+Proof. exact ListElement_delegates_l. Qed.
 Print Assumptions ListElement_delegates.
